@@ -185,6 +185,9 @@ class Unit:
             self.loop_ids[key] = d
         return self.loop_ids[key][id(node)]
 
+    def is_init_of(self, K):
+        return self.fdef.name == "__init__" and self.cls is not None and K in self.ct.mro(self.cls)
+
     def T(self, s):
         """parse a type string in this unit's class-variable environment"""
         t = parse_ty(s) if isinstance(s, str) else s
@@ -305,6 +308,8 @@ class Unit:
             nn = fresh("next", I)
             st.pc.append(nn >= st.next)
             st.next = nn
+            for s in self.wlog:
+                s.add("next")
         for k, (old, A, ty) in new.items():
             st.heap[k] = A
             for s in self.wlog:
